@@ -448,6 +448,19 @@ def main(argv):
         for n in theorem_names(pid):
             ob("theorem %s" % n, "theorem", False, "props/%s.vo did not build" % pid)
 
+    # 3b. thorough tier: independent re-check of the compiled closure with coqchk
+    if tier == "thorough" and os.path.exists(os.path.join(COQ, "props", pid + ".vo")):
+        qf = []
+        for d in ("lib", "model", "proofs", "props", "gen"):
+            qf += ["-Q", d, "W." + d]
+        with Lock("coq"):
+            rcc, outc, dtc = sh(["coqchk", "-silent", "-o"] + qf + ["W.props." + pid], cwd=COQ, timeout=3600)
+        m = re.search(r"\* Axioms:(.*?)\n\s*\n\* Constants", outc, re.S)
+        axs = m.group(1).strip() if m else "?"
+        okk = rcc == 0 and (axs == "<none>" or all(a.strip().split(" ")[0] in AXIOM_WHITELIST for a in axs.split("\n") if a.strip()))
+        ob("coqchk -o W.props.%s (axioms: %s) in %.0fs" % (pid, axs.replace("\n", "; ")[:200], dtc), "coqchk", okk, outc)
+        assumptions["coqchk"] = outc[-1500:]
+
     # 4. build harness + driver
     okh, outh = build_harness()
     ob("go build -tags verif harness against /repo working tree", "build", okh, outh)
@@ -584,7 +597,7 @@ def main(argv):
                 violations.append((path, " no-failing-input-found"))
     # proof-side failures
     proof_bad = [o for o in obligations if not o["ok"] and o["kind"] in
-                 ("coq-file", "tie-obligation", "theorem", "audit", "translator", "build")]
+                 ("coq-file", "tie-obligation", "theorem", "audit", "translator", "build", "coqchk")]
     if proof_bad and not violations:
         found = None
         if okh and okd:
